@@ -299,7 +299,10 @@ def scenario(ctx):
             _do_upload(ctx, w, e, 1)
         _check_store(ctx, w, "sweep")
         return
-    od, entries = srvside.gen_od(ctx)
+    maxlen = 64
+    if ctx.params.get("tier") == "thorough" and ctx.choice(6, "longvalues") == 0:
+        maxlen = 10_000
+    od, entries = srvside.gen_od(ctx, maxlen)
     w = srvside.ServerWorld(ctx, od, entries, node_id)
     readable = [e for e in entries]
     writable = [e for e in entries]
